@@ -48,7 +48,7 @@ class C01(PropBase):
                     yield dict(directed=directed, removal=True, hist=h, family='int', functional=False)
 
     def n_random(self, tier):
-        return 1500 if tier == 'quick' else 40000
+        return 1500 if tier == 'quick' else 200000
 
     def random_cases(self, rnd, n):
         for i in range(n):
